@@ -824,10 +824,12 @@ func c14Database(r *hx.Result, rng *hx.Rng, no int) (err error) {
 }
 
 func runC14(r *hx.Result, rng *hx.Rng, thorough bool, replay string) error {
-	r.Rule = "cases: (a) real stores, FileSize 48..1000, MaxIOConcurrency 1..4, embedded values on/off, 1..6 concurrent committers, 6..58 txs of 1..10 entries with empty / tiny / chunk-sized / multi-chunk values, ascending cut points incl. 0, repeats, last, last+1, an older cut after a newer one, commits between cuts, close/reopen; (b) deterministic witnesses for the ExportTx lock leak (3 recipes) and the in-flight writer (replication path); (c) truncation racing 3..8 committers and a reader; (d) pkg/database: NewDB + SQL table with index and ALTER + document collection + KV, vlog truncator (CopySQLCatalog + TruncateUptoTx), writes, repeat, restart, second cut. Non-trivial = the truncation removed at least one chunk file (store cases) / ran at least one truncation round (race) ; distinct by case label + cut."
+	r.Rule = "cases: (a) real stores, FileSize 48..1000, MaxIOConcurrency 1..4, embedded values on/off, 1..6 concurrent committers, 6..58 txs of 1..10 entries with empty / tiny / chunk-sized / multi-chunk values, ascending cut points incl. 0, repeats, last, last+1, an older cut after a newer one, commits between cuts, close/reopen; (a') late committers: history replicated in id order with the ReplicateTx call of 1..3 late txs started arbitrarily early (values staged, waiting for the predecessor), so that value-log order and id order differ by more than MaxConcurrency (2..6; MaxActiveTransactions from the exact minimum), all committed, then TruncateUptoTx(n) for every n (or an ascending subsequence), reopen; a heavy committer (512-entry txs) racing light ones with MaxConcurrency 2..4; (b) deterministic witnesses for the ExportTx lock leak (3 recipes) and the in-flight writer (replication path); (c) truncation racing 3..8 committers and a reader; (d) pkg/database: NewDB + SQL table with index and ALTER + document collection + KV, vlog truncator (CopySQLCatalog + TruncateUptoTx), writes, repeat, restart, second cut. Non-trivial = the truncation removed at least one chunk file (store cases; late-committer cases: and a tx more than MaxConcurrency ids later needs a lower chunk) / ran at least one truncation round (race) ; distinct by case label + cut."
 	nStore, nRace, nDB := 38, 3, 2
+	nOvt, nHeavy := 10, 2
 	if thorough {
 		nStore, nRace, nDB = 220, 10, 6
+		nOvt, nHeavy = 70, 8
 	}
 	t0 := time.Now()
 	lap := func(k string) {
@@ -865,6 +867,29 @@ func runC14(r *hx.Result, rng *hx.Rng, thorough bool, replay string) error {
 		return err
 	}
 	lap("store-cases")
+	for i := 0; i < nOvt; i++ {
+		if err := c14OvertakeCase(r, rng.Fork(), thorough, i); err != nil {
+			return err
+		}
+		if i%4 == 3 {
+			if err := r.Flush(); err != nil {
+				return err
+			}
+		}
+	}
+	if err := r.Flush(); err != nil {
+		return err
+	}
+	lap("overtake-cases")
+	for i := 0; i < nHeavy; i++ {
+		if err := c14HeavyCase(r, rng.Fork(), thorough, i); err != nil {
+			return err
+		}
+	}
+	if err := r.Flush(); err != nil {
+		return err
+	}
+	lap("heavy-committer-cases")
 	for i := 0; i < nRace; i++ {
 		if err := c14Race(r, rng.Fork(), thorough, i); err != nil {
 			return err
